@@ -28,14 +28,14 @@ NEWLINES = [nl.encode(c) for c in ('ascii', 'utf-16-le', 'utf-16-be',
             for nl in ('\n', '\r\n')]
 
 
-def check(split_lines, data, nl, obs):
+def check(split_lines, data, nl, obs, case=None):
     try:
         kept = split_lines(data, nl, keep_ends=True)
         plain = split_lines(data, nl)
         plain2 = split_lines(data, newline=nl, keep_ends=False)
     except Exception as e:
         obs.violation('split_lines_raised:%s' % type(e).__name__,
-                      {'data': data, 'newline': nl}, repr(e))
+                      case or {'data': data, 'newline': nl}, repr(e))
         return
     fails = splitter.check_keep(data, nl, kept)
     fails += splitter.check_nokeep(data, nl, kept, plain)
@@ -44,8 +44,58 @@ def check(split_lines, data, nl, obs):
     if kept != splitter.scan_split(data, nl):
         fails.append('differs_from_scanning_splitter')
     for f in fails:
+        if case is not None:
+            obs.violation('identity:%s' % f, case,
+                          {'lines_returned': len(kept)})
+            continue
         obs.violation('identity:%s' % f, {'data': data, 'newline': nl},
                       {'kept': kept, 'plain': plain})
+
+
+def boundary_buffer(size, nl, seed):
+    """A buffer of ``size`` bytes of ordinary lines in which a newline
+    straddles every power of two, every multiple of 1 MiB and of 10**6 (one
+    byte of it before the boundary, or more for multi-byte newlines)."""
+    import random
+    r = random.Random(seed)
+    parts = []
+    n = 0
+    while n < size:
+        ln = b'x' * r.randint(0, 120) + nl
+        parts.append(ln)
+        n += len(ln)
+    buf = bytearray(b''.join(parts)[:size])
+    bounds = set(1 << k for k in range(6, 31))
+    bounds.update(range(1 << 20, size, 1 << 20))
+    bounds.update(range(10 ** 6, size, 10 ** 6))
+    for j, b in enumerate(sorted(x for x in bounds if 64 <= x < size - 64)):
+        buf[b - 32:b + 32] = b'x' * 64
+        back = 1 + j % max(1, len(nl) - 1) if len(nl) > 1 else 1
+        buf[b - back:b - back + len(nl)] = nl
+    return bytes(buf)
+
+
+def check_boundary_buffers(ctx, split_lines):
+    obs = ctx.obs
+    M = 1 << 20
+    sizes = [4 * M + 100001] if ctx.quick else [4 * M + 100001, 9 * M + 7,
+                                                17 * M + 3]
+    i = 0
+    for size in sizes:
+        for nl in NEWLINES:
+            i += 1
+            if not ctx.mine(i):
+                continue
+            if ctx.quick and nl not in (NEWLINES[1], NEWLINES[3],
+                                        NEWLINES[0], NEWLINES[9]):
+                continue
+            seed = size * 31 + len(nl)
+            data = boundary_buffer(size, nl, seed)
+            obs.case((size, nl, 'boundary'), nontrivial=True)
+            obs.count('multi_MiB_boundary_buffers_checked')
+            check(split_lines, data, nl, obs,
+                  case={'boundary_buffer': size, 'newline': nl,
+                        'seed': seed})
 
 
 def run(ctx):
@@ -144,6 +194,7 @@ def run(ctx):
                 obs.case((len(data), nl, 'huge'), nontrivial=True)
                 check(text.split_lines, data, nl, obs)
                 obs.count('huge_line_buffers_checked')
+    check_boundary_buffers(ctx, text.split_lines)
     # tokens that appear as literals in the library's own source
     try:
         from mon.gen import dictionary
@@ -179,4 +230,8 @@ def run(ctx):
 def replay(case, obs):
     split_lines = contracts.original('split_lines')
     obs.case(None, nontrivial=False)
+    if 'boundary_buffer' in case:
+        data = boundary_buffer(case['boundary_buffer'], case['newline'],
+                               case['seed'])
+        return check(split_lines, data, case['newline'], obs, case=case)
     check(split_lines, case['data'], case['newline'], obs)
